@@ -1,6 +1,7 @@
 package main
 
 import (
+	"sync"
 	"encoding/json"
 	"fmt"
 	"sort"
@@ -14,6 +15,7 @@ import (
 
 // ---- tokens: byte strings are interned to small numbers; 0 = empty/nil ----
 type Interner struct {
+	mu   sync.Mutex
 	m    map[string]int
 	strs []string
 }
@@ -26,6 +28,8 @@ func NewInterner() *Interner {
 }
 
 func (in *Interner) Tok(s string) int {
+	in.mu.Lock()
+	defer in.mu.Unlock()
 	if t, ok := in.m[s]; ok {
 		return t
 	}
@@ -44,7 +48,17 @@ var epoch = time.Unix(1700000000, 0).UTC()
 const tzero = -63835596800 // time.Time{}.Unix() - epoch
 
 func T(sec int64) time.Time { return epoch.Add(time.Duration(sec) * time.Second) }
+// NOWMARK stands for "the wall clock at the time of the call" (time.Now() inside the node);
+// the model receives it as its `now` input.
+const NOWMARK = 777777777
+
 func tsec(t time.Time) int64 {
+	if d := time.Since(t); d > -24*time.Hour && d < 24*time.Hour {
+		return NOWMARK
+	}
+	if d := time.Since(t.Add(-7 * 24 * time.Hour)); d > -24*time.Hour && d < 24*time.Hour {
+		return NOWMARK + 604800
+	}
 	if t.IsZero() {
 		return tzero
 	}
